@@ -205,7 +205,13 @@ var (
 	c36FeeRcpt  = common.HexToAddress("0xfe00000000000000000000000000000000003608")
 	c36Forwarder = common.HexToAddress("0xf300000000000000000000000000000000003609")
 	c36Sink     = common.HexToAddress("0x5100000000000000000000000000000000003610")
+	c36EnvRec   = common.HexToAddress("0xe400000000000000000000000000000000003611") // stores every block-context field it can observe
+	c36SlotRec  = common.HexToAddress("0xe500000000000000000000000000000000003612") // stores SLOTNUM (Amsterdam)
 )
+
+// c36EnvOps are the block-context opcodes the environment recorder stores, slot k = value of op k;
+// slot len(c36EnvOps) = BLOCKHASH(NUMBER-1).
+var c36EnvOps = []vm.OpCode{vm.NUMBER, vm.TIMESTAMP, vm.PREVRANDAO, vm.COINBASE, vm.GASLIMIT, vm.BASEFEE, vm.BLOBBASEFEE, vm.CHAINID}
 
 type c36Entry struct {
 	name string
@@ -252,7 +258,7 @@ func c36NewWorld(f c36Fork) *c36World {
 		alloc[addr] = acc
 	}
 	rich := new(big.Int).Mul(big.NewInt(1000), big.NewInt(params.Ether))
-	for i := 0; i < 18; i++ {
+	for i := 0; i < 20; i++ {
 		k := c36Key(i)
 		w.keys = append(w.keys, k)
 		w.addrs = append(w.addrs, crypto.PubkeyToAddress(k.PublicKey))
@@ -283,6 +289,13 @@ func c36NewWorld(f c36Fork) *c36World {
 	alloc[c36Looper] = types.Account{Code: loop, Nonce: 1, Balance: common.Big0}
 	alloc[c36Suicide] = types.Account{Code: program.New().Selfdestruct(c36Benef).Bytes(), Nonce: 1, Balance: big.NewInt(4242)}
 	alloc[c36Adder] = types.Account{Code: adder, Nonce: 1, Balance: common.Big0}
+	envrec := program.New()
+	for k, op := range c36EnvOps {
+		envrec.Op(op).Push(k).Op(vm.SSTORE)
+	}
+	envrec.Push(1).Op(vm.NUMBER, vm.SUB, vm.BLOCKHASH).Push(len(c36EnvOps)).Op(vm.SSTORE, vm.STOP)
+	alloc[c36EnvRec] = types.Account{Code: envrec.Bytes(), Nonce: 1, Balance: common.Big0}
+	alloc[c36SlotRec] = types.Account{Code: program.New().Op(vm.SLOTNUM).Push(0).Op(vm.SSTORE, vm.STOP).Bytes(), Nonce: 1, Balance: common.Big0}
 	w.gspec = &core.Genesis{Config: f.cfg, Alloc: alloc, GasLimit: 30_000_000, BaseFee: big.NewInt(params.InitialBaseFee), Timestamp: 1_700_000_000}
 
 	chainID := f.cfg.ChainID
@@ -338,6 +351,10 @@ func c36NewWorld(f c36Fork) *c36World {
 		{"DRAIN_V", dyn(15, 0, &vAddr, 0, 1_000_000, gwei(10), gwei(9), nil), "always"},
 		{"V_TX", types.MustSignNewTx(vKey, w.signer, &types.DynamicFeeTx{ChainID: chainID, Nonce: 0, To: &c36Fresh, Value: big.NewInt(3), Gas: 100_000, GasFeeCap: gwei(10), GasTipCap: gwei(6)}), "unless-prague:DRAIN_V"},
 		{"TAIL", dyn(16, 0, &w.addrs[1], 2, 1_000_000, gwei(10), big.NewInt(500_000_000), nil), "always"},
+		// environment recorders: one storage slot per block-context field, so that a block context that
+		// differs between building and import (or from the sealed header) changes the state root
+		{"ENVREC", dyn(17, 0, &c36EnvRec, 0, 3_000_000, gwei(10), cg(450), nil), "always"},
+		{"SLOTREC", dyn(18, 0, &c36SlotRec, 0, 1_000_000, gwei(10), cg(350), nil), "always"},
 	}
 	w.entries[0].includable = "unless:NONCE_DUP"           // XFER has the same sender and nonce as NONCE_DUP, which pays more
 	w.entries[1].includable = "after-any:XFER,NONCE_DUP" // XFER2 needs nonce 0 of its sender to be used
@@ -354,13 +371,15 @@ type c36Attrs struct {
 	random      common.Hash
 	recipient   common.Address
 	maxBlobs    int // miner configuration: 0 = protocol default
+	slot        uint64  // slot number (Amsterdam), never zero
+	targetGas   *uint64 // target gas limit (Amsterdam)
 }
 
 func (w *c36World) attrs() []c36Attrs {
 	return []c36Attrs{
-		{"plain", types.Withdrawals{}, common.Hash{}, common.Hash{}, c36FeeRcpt, 0},
-		{"withdrawal+root+random", types.Withdrawals{{Index: 0, Validator: 3, Address: c36WdAddr, Amount: 7}}, common.Hash{0xbe, 0xac}, common.Hash{0x4a, 0x4d}, c36FeeRcpt, 0},
-		{"recipient-is-sender+maxblobs2", types.Withdrawals{{Index: 5, Validator: 1, Address: w.addrs[0], Amount: 1}, {Index: 6, Validator: 2, Address: c36Fresh, Amount: 0}}, common.Hash{1}, common.Hash{2}, w.addrs[2], 2},
+		{"plain", types.Withdrawals{}, common.Hash{}, common.Hash{}, c36FeeRcpt, 0, 7, nil},
+		{"withdrawal+root+random", types.Withdrawals{{Index: 0, Validator: 3, Address: c36WdAddr, Amount: 7}}, common.Hash{0xbe, 0xac}, common.Hash{0x4a, 0x4d}, c36FeeRcpt, 0, 1_000_003, c36U64(36_000_000)},
+		{"recipient-is-sender+maxblobs2", types.Withdrawals{{Index: 5, Validator: 1, Address: w.addrs[0], Amount: 1}, {Index: 6, Validator: 2, Address: c36Fresh, Amount: 0}}, common.Hash{1}, common.Hash{2}, w.addrs[2], 2, 2, c36U64(20_000_000)},
 	}
 }
 
@@ -429,7 +448,7 @@ func TestVerif_C36(t *testing.T) {
 	mc.Run(t, "C36", func(r *mc.R) {
 		maxSize := mc.Pick(r, 3, 4)
 		r.Rule("rule sets {cancun, prague, osaka, amsterdam} x 3 payload-attribute combinations (withdrawals none / one / two incl. a zero amount and a sender, beacon root zero / set, random zero / set, fee recipient fresh / a sender, miner blob cap default / 2) " +
-			"x every subset of <= max_pool_size transactions of the 20-entry alphabet as pool content (quick: subsets of the maximal size take one attribute combination each, round robin); per case the empty and the full payload are round-tripped through engine executable data and imported on an independent chain; " +
+			"x every subset of <= max_pool_size transactions of the 22-entry alphabet as pool content (quick: subsets of the maximal size take one attribute combination each, round robin); per case the empty and the full payload are round-tripped through engine executable data and imported on an independent chain; " +
 			"distinct = distinct imported block hashes")
 		r.Bound("max_pool_size", maxSize)
 		r.Assume("the pool is a stub txpool.SubPool that hands the builder the enumerated content unfiltered (superset of what the real legacy/blob pools would return); blob sidecars carry dummy commitments/proofs (nothing on the build/import path verifies KZG proofs)")
@@ -539,7 +558,8 @@ func (g *c36Rig) check(r *mc.R, subset []int, freshChain bool) error {
 		Withdrawals: a.withdrawals, BeaconRoot: &root, Version: engine.PayloadV3,
 	}
 	if w.fork.amsterdam {
-		args.SlotNum = c36U64(1)
+		args.SlotNum = c36U64(a.slot)
+		args.TargetGasLimit = a.targetGas
 		args.Version = engine.PayloadV4
 	}
 	payload, err := g.miner.BuildPayload(context.Background(), args, false)
@@ -721,6 +741,9 @@ func (g *c36Rig) importPayload(r *mc.R, kind string, args *BuildPayloadArgs, env
 			}
 		}
 	}
+	if err := g.checkRecorders(r, kind, block); err != nil {
+		return err
+	}
 	if freshChain {
 		// full import with head update on a chain created for this block only
 		fresh, err := core.NewBlockChain(rawdb.NewMemoryDatabase(), w.gspec, w.engine, nil)
@@ -769,4 +792,60 @@ func c36Includable(rule string, inPool map[string]bool, prague bool) bool {
 		return !(prague && inPool[rule[14:]])
 	}
 	panic("c36: unknown inclusion rule " + rule)
+}
+
+// checkRecorders reads what the environment recorder transactions stored in the
+// imported state and compares it with the sealed header: the block context the
+// transactions ran in must be the one the header describes.
+func (g *c36Rig) checkRecorders(r *mc.R, kind string, block *types.Block) error {
+	w := g.w
+	h := block.Header()
+	var envPos, slotPos = -1, -1
+	for i, tx := range block.Transactions() {
+		if tx.To() != nil && *tx.To() == c36EnvRec {
+			envPos = i
+		}
+		if tx.To() != nil && *tx.To() == c36SlotRec {
+			slotPos = i
+		}
+	}
+	if envPos < 0 && slotPos < 0 {
+		return nil
+	}
+	st, err := g.importer.StateAt(h)
+	if err != nil {
+		return fmt.Errorf("%s: state of the imported block unavailable: %v", kind, err)
+	}
+	receipts := g.importer.GetReceiptsByHash(block.Hash())
+	word := func(addr common.Address, k int) common.Hash { return st.GetState(addr, common.BigToHash(big.NewInt(int64(k)))) }
+	if envPos >= 0 {
+		if receipts[envPos].Status != types.ReceiptStatusSuccessful {
+			return fmt.Errorf("%s: environment recorder failed", kind)
+		}
+		want := []common.Hash{
+			common.BigToHash(h.Number), common.BigToHash(new(big.Int).SetUint64(h.Time)), h.MixDigest, common.BytesToHash(h.Coinbase[:]),
+			common.BigToHash(new(big.Int).SetUint64(h.GasLimit)), common.BigToHash(h.BaseFee), common.BigToHash(eip4844.CalcBlobFee(w.fork.cfg, h)),
+			common.BigToHash(w.fork.cfg.ChainID), h.ParentHash,
+		}
+		names := []string{"NUMBER", "TIMESTAMP", "PREVRANDAO", "COINBASE", "GASLIMIT", "BASEFEE", "BLOBBASEFEE", "CHAINID", "BLOCKHASH(N-1)"}
+		for k := range want {
+			if got := word(c36EnvRec, k); got != want[k] {
+				return fmt.Errorf("%s: the recorder transaction observed %s = %x, the sealed header implies %x", kind, names[k], got, want[k])
+			}
+		}
+		r.Outcome(kind + ":environment-recorded=header")
+	}
+	if slotPos >= 0 {
+		ok := receipts[slotPos].Status == types.ReceiptStatusSuccessful
+		if ok != w.fork.amsterdam {
+			return fmt.Errorf("%s: SLOTNUM recorder status %d on %s", kind, receipts[slotPos].Status, w.fork.name)
+		}
+		if w.fork.amsterdam {
+			if got, want := word(c36SlotRec, 0), common.BigToHash(new(big.Int).SetUint64(*h.SlotNumber)); got != want {
+				return fmt.Errorf("%s: the recorder transaction observed SLOTNUM = %x, the sealed header has %x", kind, got, want)
+			}
+			r.Outcome(kind + ":slotnum-recorded=header")
+		}
+	}
+	return nil
 }
